@@ -1188,7 +1188,7 @@ def _generated_no_exception(model, extra):
     from native.mirrors import TRAITS as _T
     from native.witnesses import optimise
 
-    per = int(extra.get("n", 40)) if extra.get("tier") != "thorough" else 0
+    per = int(extra.get("n", 20)) if extra.get("tier") != "thorough" else 0
     n = 0
     for trait in GENERATORS:
         for prg, _f in sample(trait, per, int(extra.get("seed", 0))):
